@@ -171,8 +171,10 @@ static bool relocateBytes(int c) {
   if (!amc::is_trivially_relocatable<Set>::value) return false;
   unsigned char *from = gStore[c];
   unsigned char *to = from == gStoreA[c] ? gStoreB[c] : gStoreA[c];
+  VH_UNPOISON(to, sizeof(Set));
   std::memcpy(to, from, sizeof(Set));
   std::memset(from, 0xAB, sizeof(Set));
+  VH_POISON(from, sizeof(Set));  // the source is abandoned: any later access to it (a cached pointer, a self pointer) is reported
   gStore[c] = to;
   return true;
 }
